@@ -34,6 +34,14 @@ fn model_io_copy<R: ?Sized + std::io::Read, W: ?Sized + std::io::Write>(
 	Ok(total)
 }
 
+/// Model of std::panic::catch_unwind under Kani (panic = abort, so there is nothing to catch):
+/// runs the closure.  Needed because Kani 0.68 hits an internal compiler error on the
+/// `catch_unwind` intrinsic as soon as `<Writer as Drop>::drop` is reachable.
+use std::panic as stdpanic; // alias: Kani resolves `std::panic` in a stub path to the macro
+fn model_catch_unwind<F: FnOnce() -> R + std::panic::UnwindSafe, R>(f: F) -> std::thread::Result<R> {
+	Ok(f())
+}
+
 /// A fixed-capacity byte sink (cheaper for CBMC than Vec<u8>); records everything written.
 struct ArrSink<const N: usize> {
 	buf: [u8; N],
